@@ -1,6 +1,7 @@
 import EpgVerif.Props.C13
 import EpgVerif.Props.C13Prune
 import EpgVerif.Tie.ShiftSites
+import EpgVerif.Props.C13Cap
 open EpgVerif.Props.C13
 #print axioms inv_step
 #print axioms inv_run
@@ -17,3 +18,17 @@ open EpgVerif.Props.C13
 #print axioms prune_error_eps
 #print axioms prune_disabled_exact
 #print axioms removed_le_present
+#print axioms nd_cap_horizon
+#print axioms nd_acquisition_exact
+#print axioms nd_cap_drops
+#print axioms nd_cap_stays_dropped
+#print axioms inv2_step
+#print axioms nd_cap_horizon_sharp
+#print axioms nd_acquisition_exact_sharp
+#print axioms nd_cap_bound
+#print axioms time_shift_free
+#print axioms get_capShift
+#print axioms wfn_capShift
+#print axioms get_capRun
+#print axioms table_cap_horizon
+#print axioms table_cap_bound
